@@ -11,7 +11,7 @@ EXPLANATION = ("proved: copy-coverage and ownership obligations of the _blank_co
 TECHNIQUE = "frame/ownership obligations on the copy protocol + bounded run-time contracts on branch trees"
 RULE = _rtc.RTC_RULE
 FUNCTIONS = ["FullFrontend._get_solver", "FullFrontend._copy", "FullFrontend._add", "ReplacementFrontend._copy", "ReplacementFrontend._blank_copy", "HybridFrontend._copy",
-             "HybridFrontend._blank_copy"] + ["<SolverClass>.__init__/_blank_copy/_copy for " + c for c in ["Solver", "SolverCacheless", "SolverReplacement", "SolverHybrid", "SolverVSA", "SolverConcrete", "SolverStrings", "SolverComposite", "SolverCompositeChild"]]
+             "HybridFrontend._blank_copy", "BackendZ3._batch_eval (shared solver object left exactly as found)", "BackendZ3._extrema (same)"] + ["<SolverClass>.__init__/_blank_copy/_copy for " + c for c in ["Solver", "SolverCacheless", "SolverReplacement", "SolverHybrid", "SolverVSA", "SolverConcrete", "SolverStrings", "SolverComposite", "SolverCompositeChild"]]
 TRUSTED = _rtc.RTC_TRUSTED
 ASSUMPTIONS = ["declared shared cells: ASTs (immutable), the Z3 solver under _tls (copy-on-write by _get_solver: proved over a ghost backend, fullfrontend.*), composite children (_claim), the composite's template frontend",
                "the composite-children copy-on-write protocol (_claim / _owned_solvers) is proved under C12 (composite.branch, composite._claim clauses) and by the statecov clause on the weak sets of children"]
@@ -26,6 +26,10 @@ def tasks(tier, seed=0):
     out += [task("vf.contracts.fullfront", "ob_fullfront", f"fullfrontend.{m}/protocol", ["C14", "C11"], method=m, tier=tier) for m in ("_get_solver", "_add", "branch", "eval", "simplify")]
     out += [task("vf.contracts.replfront", "ob_replacement", f"replacement.{m}/equiv+inv", ["C14", "C13"], method=m, tier=tier) for m in ("_copy", "_blank_copy")]
     out += [task("vf.contracts.hybrid", "ob_hybrid", f"hybrid.{m}/dispatch+inv", ["C14", "C13"], method=m, tier=tier) for m in ("branch", "blank_copy")]
+    # the backend's multi-check queries run on the solver object that both sides of a branch share (copy-on-write happens only on add):
+    # on every exit - normal or exceptional - it must hold exactly what it held at entry (frames, blocking clauses, the caller's extras)
+    out.append(task("vf.contracts.z3solve", "ob_batch_eval", "z3solve._batch_eval/state-restored+results", ["C17", "C14", "C11"], tier=tier))
+    out.append(task("vf.contracts.z3solve", "ob_extrema", "z3solve._extrema/true-optimum", ["C11", "C17", "C14"], tier=tier))
     # a method added to a caching layer (a downsize() that empties a set a branch still shares ...) is outside every proved invariant
     out.append(task("vf.contracts.mixins", "ob_modelcache_copy", "mixin.ModelCacheMixin._copy/own-containers", ["C14", "C26", "C11"], tier=tier))
     out.append(task("vf.contracts.layers", "ob_method_coverage", "layer.methods/every-mixin-method-accounted-for", ["C11", "C14"]))
